@@ -14,14 +14,17 @@ Code: lsm_tree.py `scan`: `for level in self._levels: for sstable in reversed(le
  false positive, so it is much harder to hit; the scan needs no luck.)
 
 State (built only through the public sync API, SizeTieredCompaction(min_sstables=4), memtable_size=2):
-  L1 = [P{p2,p3}, Q{q1,q2}]   (two disjoint SSTables), L0 = 3 SSTables each {o1,p15}.
+  L1 = [P{p2,p3}, Q{q1,q2}]   (two disjoint SSTables), L0 = [A, B, C], each {o1,p25}.
 Schedule:
-  t=0.100  writer: put(o1), put(p15) -> 4th L0 flush (2 ms) -> compaction L0 -> L1 starts at
-           t=0.10202; it merges the four L0 tables with the overlapping P (not Q), suspends 2 ms and
-           at t=0.10402 removes P from L1 and appends the merged table N: L1 = [Q, N].
-  t=0.103  reader: scan("p2", "r").  No L0 table has keys in range, so it goes straight to L1,
-           reversed([P, Q]) -> Q first, suspends 2 ms (until 0.105).  When it resumes the list is
-           [Q, N]; the iterator moves to index 0 = Q again and stops.  p2 and p3 are never seen.
+  t=0.097  reader: scan("p2", "r").  L0 pass over reversed([A,B,C]): 2 ms per table -> until 0.103.
+           Then L1: reversed([P, Q]) -> Q first, suspended 0.103 .. 0.105.
+  t=0.100  writer: put(o1), put(p25) -> 4th L0 flush (0.10002 .. 0.10202) -> compaction L0 -> L1
+           starts at 0.10202; it merges the four L0 tables with the overlapping P (Q does not
+           overlap), suspends 2 ms and at t=0.10402 removes P from L1 and appends the merged table N:
+           L1 = [Q, N].
+  t=0.105  the scan resumes; its reversed-iterator moves to index 0, which is now Q again, and stops.
+           P is gone and N sits at an index already passed: p2 and p3 are never seen, although they
+           were written before the simulation even started and nobody touched them since.
 
 Run: /venv/bin/python /verif/repro/c14_4_scan_vs_compaction.py   (exit 1 = defect present)
      HS_ROOT=/path/to/worktree /venv/bin/python ...               (to test another checkout)
@@ -52,9 +55,9 @@ for rnd in range(4):  # 4 flushes {p2,p3} -> compaction -> L1 = [P]
 for rnd in range(4):  # 4 flushes {q1,q2} -> compaction -> L1 = [P, Q]
     put_sync("q1", f"Q1.{rnd}")
     put_sync("q2", f"Q2.{rnd}")
-for rnd in range(3):  # 3 flushes {o1,p15} stay in L0
+for rnd in range(3):  # 3 flushes {o1,p25} stay in L0
     put_sync("o1", f"O1.{rnd}")
-    put_sync("p15", f"P15.{rnd}")
+    put_sync("p25", f"P25.{rnd}")
 print("initial levels:", [[repr(s) for s in lvl] for lvl in lsm._levels if lvl])
 assert len(lsm._levels[0]) == 3 and len(lsm._levels[1]) == 2, "unexpected initial shape"
 
@@ -64,7 +67,7 @@ result = {}
 class Writer(Entity):
     def handle_event(self, event):
         yield from lsm.put("o1", "O1.3")
-        yield from lsm.put("p15", "P15.3")
+        yield from lsm.put("p25", "P25.3")
         print(f"t={self.now.to_seconds():.5f} writer done; levels:",
               [[repr(s) for s in lvl] for lvl in lsm._levels if lvl])
 
@@ -81,14 +84,15 @@ class Reader(Entity):
 w, r = Writer("writer"), Reader("reader")
 sim = Simulation(end_time=Instant.from_seconds(1.0), entities=[lsm, w, r])
 sim.schedule(Event(time=Instant.from_seconds(0.100), event_type="go", target=w))
-sim.schedule(Event(time=Instant.from_seconds(0.103), event_type="go", target=r))
+sim.schedule(Event(time=Instant.from_seconds(0.097), event_type="go", target=r))
 sim.run()
 
-expected = sorted((k, v) for k, v in model.items() if "p2" <= k < "r")
+# p25 is being rewritten concurrently (either value is fine); p2,p3,q1,q2 are not written during the run
+expected = sorted((k, v) for k, v in model.items() if k in ("p2", "p3", "q1", "q2"))
 print(f"point reads at scan begin (t={result['t0']:.5f}):", result["before"])
 print(f"scan('p2','r') [{result['t0']:.5f} .. {result['t1']:.5f}] ->", result["scan"])
-print("expected (none of these keys was written during the run) ->", expected)
-bad = result["scan"] != expected
+print("must contain (none of these keys was written during the run) ->", expected)
+bad = any(kv not in result["scan"] for kv in expected)
 print("DEFECT PRESENT: scan missed " + str([k for k, _ in expected if k not in dict(result["scan"])])
       if bad else "defect absent")
 sys.exit(1 if bad else 0)
